@@ -184,7 +184,7 @@ def gen_reuse(rng, tier):
                 t[0] = rng.choice(model.W_XML + model.W_PAREN[:8])
     second = rng.choice(["export", "tigerxml", "discobrackets", "terminals", "extract",
                          "gapdegree", "trans+export", "trans+export", "trans+export",
-                         "disco_order"])
+                         "disco_order", "trans+extract", "trans+gapdegree", "trans+brackets"])
     trans2 = rng.choice([["root_attach"], ["negra_mark_heads", "binarize"],
                          ["root_attach", "negra_mark_heads", "boyd_split", "raising"],
                          ["punctuation_delete"], ["add_topnode"], ["punctuation_root"],
@@ -519,6 +519,17 @@ def reuse_ops(sc, with_first):
         elif x == "trans+export":
             ops += [["trans", "t", name, {}] for name in sc.get("trans2", ["root_attach"])]
             ops += [["sio", "b"], ["write", sc.get("fmt2", "export"), "t", "b", {}], ["sval", "b"]]
+        elif x in ("trans+extract", "trans+gapdegree", "trans+brackets"):
+            # the tree is restructured in place, then something that depends on its yields
+            # (vertical contexts, gap degrees, the bracket writer's refusal) looks at it again
+            ops += [["trans", "t", name, {}] for name in sc.get("trans2", ["root_attach"])]
+            if x == "trans+extract":
+                ops += [["gnew", "g"], ["extract", "t", "g"], ["gdump", "g"]]
+            elif x == "trans+gapdegree":
+                ops += [["task_new", "k", "GapDegree"], ["task_run", "k", "t"],
+                        ["task_done", "k"]]
+            else:
+                ops += [["sio", "b"], ["write", "brackets", "t", "b", {}], ["sval", "b"]]
         else:
             ops += [["sio", "b"], ["write", x, "t", "b", {}], ["sval", "b"]]
     return ops
